@@ -797,6 +797,152 @@ pub fn run_c20(ctx: &Ctx, rep: &mut Report) {
         }
     }
     rep.tally_n("collections", n as u64);
+    c20_builder_reuse(ctx, rep);
+}
+
+/// Builders are values that may be kept and used again: one configured
+/// builder must give, for every collection handed to it, the searcher a fresh
+/// builder gives (nothing of an earlier build may stick to it), and a packed
+/// builder that is extended after a build must behave like one that got all
+/// patterns at once - while the searcher built earlier stays what it was.
+fn c20_builder_reuse(ctx: &Ctx, rep: &mut Report) {
+    use aho_corasick::{packed, AhoCorasick, AhoCorasickKind};
+    let n = ctx.tier.pick(2, 40, 2000);
+    let mut root = Rng::new(ctx.seed).fork(0xB11D + ctx.shard as u64);
+    for i in 0..n {
+        let mut rng = root.fork(i as u64);
+        let kind = *rng.pick(&Kind::ALL);
+        let cfg = Cfg {
+            imp: *rng.pick(&Imp::ALL),
+            kind,
+            sk: *rng.pick(&[SK::Unanchored, SK::Both]),
+            ci: rng.chance(1, 4),
+            pre: rng.chance(2, 3),
+            dense_depth: *rng.pick(&[None, Some(0), Some(2)]),
+            byte_classes: rng.chance(1, 2),
+        };
+        // three collections of different character, the prefilter-directed
+        // ones first (their builders have the most state)
+        let lists: Vec<Vec<Vec<u8>>> = (0..3)
+            .map(|k| if k < 2 { crate::meta::prefilter_patterns(&mut rng).0 } else { gen::patterns(&mut rng, &gen::Profile::default_sem()).0 })
+            .collect();
+        let shared: Vec<Result<S, String>> = {
+            // one builder object for all three
+            match cfg.imp {
+                Imp::LowNnfa => {
+                    let b = cfg.nnfa_builder();
+                    lists.iter().map(|l| b.build(l).map(S::N).map_err(|e| e.to_string())).collect()
+                }
+                Imp::LowCnfa => {
+                    let b = cfg.cnfa_builder();
+                    lists.iter().map(|l| b.build(l).map(S::C).map_err(|e| e.to_string())).collect()
+                }
+                Imp::LowDfa => {
+                    let b = cfg.dfa_builder();
+                    lists.iter().map(|l| b.build(l).map(S::D).map_err(|e| e.to_string())).collect()
+                }
+                _ => {
+                    let mut b = AhoCorasick::builder();
+                    b.match_kind(to_mk(cfg.kind))
+                        .start_kind(cfg.sk.to_ac())
+                        .ascii_case_insensitive(cfg.ci)
+                        .prefilter(cfg.pre)
+                        .byte_classes(cfg.byte_classes)
+                        .kind(match cfg.imp {
+                            Imp::TopNnfa => Some(AhoCorasickKind::NoncontiguousNFA),
+                            Imp::TopCnfa => Some(AhoCorasickKind::ContiguousNFA),
+                            Imp::TopDfa => Some(AhoCorasickKind::DFA),
+                            _ => None,
+                        });
+                    if let Some(d) = cfg.dense_depth {
+                        b.dense_depth(d);
+                    }
+                    lists.iter().map(|l| b.build(l).map(S::Top).map_err(|e| e.to_string())).collect()
+                }
+            }
+        };
+        for (k, l) in lists.iter().enumerate() {
+            rep.eval();
+            rep.tally("builder_reuse_builds");
+            let cj = || J::obj().with("patterns", pats_json(l)).with("cfg", cfg.to_json()).with("what", J::s("builder_reuse")).with("build_number", J::i(k));
+            let fresh = match guard(|| cfg.build(l)) {
+                Ok(Ok(s)) => s,
+                _ => continue, // reported by the main monitor
+            };
+            let sh = match &shared[k] {
+                Ok(s) => s,
+                Err(e) => {
+                    rep.violation("builder_reuse:build_error", format!("build number {} of a reused builder failed: {}", k + 1, e), cj());
+                    continue;
+                }
+            };
+            if (sh.patterns_len(), sh.min_pattern_len(), sh.max_pattern_len()) != (fresh.patterns_len(), fresh.min_pattern_len(), fresh.max_pattern_len()) {
+                rep.violation("builder_reuse:metadata", format!("build number {} of a reused builder reports other metadata than a fresh builder", k + 1), cj());
+                continue;
+            }
+            for _ in 0..3 {
+                let len = rng.range(0, 120);
+                let hay = crate::meta::decoy_haystack(&mut rng, l, len, cfg.ci);
+                let a = crate::walk::answers(sh, cfg.kind, &hay, (0, hay.len()), false);
+                let b = crate::walk::answers(&fresh, cfg.kind, &hay, (0, hay.len()), false);
+                if a.earliest_as_existence() != b.earliest_as_existence() {
+                    rep.violation(
+                        "builder_reuse:results",
+                        format!("build number {} of a reused builder ({}) answers differently from a searcher built by a fresh builder", k + 1, cfg.label()),
+                        cj().with("haystack", J::Str(hex(&hay))),
+                    );
+                    break;
+                }
+            }
+        }
+        // packed: build, extend, build again
+        let (l1, _) = crate::meta::prefilter_patterns(&mut rng);
+        let (l2, _) = crate::meta::prefilter_patterns(&mut rng);
+        if l1.is_empty() || l2.is_empty() || l1.len() + l2.len() > 128 || l1.iter().chain(l2.iter()).any(|p| p.is_empty()) {
+            continue;
+        }
+        let mk = if rng.chance(1, 2) { packed::MatchKind::LeftmostFirst } else { packed::MatchKind::LeftmostLongest };
+        let both: Vec<Vec<u8>> = l1.iter().chain(l2.iter()).cloned().collect();
+        let r = guard(|| {
+            let mut c = packed::Config::new();
+            c.match_kind(mk);
+            let mut b = c.builder();
+            b.extend(l1.iter());
+            let s1 = b.build();
+            b.extend(l2.iter());
+            let s12 = b.build();
+            let f1 = c.builder().extend(l1.iter()).build();
+            let f12 = c.builder().extend(both.iter()).build();
+            (s1, s12, f1, f12)
+        });
+        rep.eval();
+        rep.tally("packed_builder_reuse_cases");
+        let cj = || J::obj().with("patterns", pats_json(&both)).with("first_batch", J::i(l1.len())).with("what", J::s("packed_builder_reuse"));
+        match r {
+            Err(p) => rep.violation("builder_reuse:packed_panic", format!("packed builder reuse panicked: {}", p), cj()),
+            Ok((s1, s12, f1, f12)) => {
+                if s1.is_some() != f1.is_some() || s12.is_some() != f12.is_some() {
+                    rep.violation("builder_reuse:packed_buildability", "a packed builder extended after a build disagrees with a fresh one on whether a searcher can be built".to_string(), cj());
+                    continue;
+                }
+                for _ in 0..3 {
+                    let len = rng.range(0, 120);
+                    let hay = crate::meta::decoy_haystack(&mut rng, &both, len, false);
+                    let run = |s: &Option<packed::Searcher>| -> Option<Vec<(usize, usize, usize)>> {
+                        s.as_ref().map(|s| s.find_iter(&hay).take(hay.len() + 2).map(|m| (m.pattern().as_usize(), m.start(), m.end())).collect())
+                    };
+                    if run(&s1) != run(&f1) {
+                        rep.violation("builder_reuse:packed_first", "the searcher built before the builder was extended differs from a fresh one for the first batch".to_string(), cj().with("haystack", J::Str(hex(&hay))));
+                        break;
+                    }
+                    if run(&s12) != run(&f12) {
+                        rep.violation("builder_reuse:packed_extended", "the searcher built after extending a used builder differs from a fresh one given all patterns".to_string(), cj().with("haystack", J::Str(hex(&hay))));
+                        break;
+                    }
+                }
+            }
+        }
+    }
 }
 
 pub fn replay_c20(case: &J, rep: &mut Report) -> Result<(), String> {
@@ -805,6 +951,9 @@ pub fn replay_c20(case: &J, rep: &mut Report) -> Result<(), String> {
         return Err("this witness has too many patterns to be stored; re-run the check with the same seed".into());
     }
     let pats = pats_from_json(pj)?;
+    if matches!(case.get("what").and_then(|v| v.as_str()), Some("builder_reuse") | Some("packed_builder_reuse")) {
+        return Err("builder-reuse witnesses are histories over several collections; re-run the check with the same seed".into());
+    }
     if case.get("what").and_then(|v| v.as_str()) == Some("convenience") {
         c20_convenience(rep, &pats);
         return Ok(());
